@@ -371,11 +371,7 @@ def resolve_name(obj, func, args, unknown=False):
 
 def forward_signatures(func, calls, args, kwargs, sig):
     if args or kwargs:
-        try:
-            bap = sig.bind_partial(*args, **kwargs)
-        except TypeError:
-            # the known arguments do not fit the function
-            raise UnknownForwards()
+        bap = sig.bind_partial(*args, **kwargs)
     else:
         bap = EmptyBoundArguments()
     def rn(obj, unknown=True):
@@ -418,7 +414,11 @@ def forward_signatures(func, calls, args, kwargs, sig):
 
 
 def autoforwards_partial(par, args, kwargs):
-    sig = autoforwards(par.func, par.args, {})
+    try:
+        sig = autoforwards(par.func, par.args, {})
+    except TypeError:
+        # the bound arguments do not fit the function
+        raise UnknownForwards()
     try:
         return _signatures._mask(
             sig, len(par.args),
